@@ -1080,6 +1080,24 @@ class Progress:
                 for s_, y in self.LA:
                     if s_.isascii() and self.rel(y, base, body) == EQ:
                         la = max(la, len(s_))
+                # a look-ahead BEHIND the characters already matched: text[cursor + m ..].starts_with(<ASCII char(s)>) with 0 < m < k
+                for t, v in p.conds:
+                    if v == 1 and t[0] == 'call' and strip_generics(t[1]).split('::')[-1] == 'starts_with' and len(t[2]) == 2:
+                        sl, pat = strip_ref(t[2][0]), strip_ref(t[2][1])
+                        if not (sl[0] == 'call' and strip_generics(sl[1]).split('::')[-1] == 'index' and len(sl[2]) == 2 and sl[2][1][0] == 'variant' and sl[2][1][3] == 'RangeFrom'):
+                            continue
+                        st = sl[2][1][4][0]
+                        if not (st[0] == 'bin' and st[1] == 'Add' and st[2] == base and is_const(st[3]) and isinstance(st[3][1], int) and 0 < st[3][1] < k):
+                            continue
+                        width = 0
+                        if pat[0] == 'array' and pat[1] and all(is_const(x) and isinstance(x[1], int) and 0 < x[1] < 128 for x in pat[1]):
+                            width = 1
+                        elif is_const(pat) and isinstance(pat[1], int) and 0 < pat[1] < 128:
+                            width = 1
+                        elif is_const(pat) and isinstance(pat[1], str) and pat[1].isascii():
+                            width = len(pat[1])
+                        if st[3][1] == len(ascii_terms) + la:
+                            la += width
                 if k > len(ascii_terms) + la:
                     out.append((body.name_of(l), k, len(ascii_terms) + la, p))
         return n, out
